@@ -453,7 +453,17 @@ class Engine:
                 return TOP
             return Obj(adt="array", fields={i: copy.deepcopy(v) for i in range(n)})
         if k == "cast":
-            return self.operand(fr, r["o"])
+            v = self.operand(fr, r["o"])
+            ty = r.get("ty")
+            if isinstance(v, int) and not isinstance(v, bool) and isinstance(ty, str):
+                bits = {"u8": 8, "u16": 16, "u32": 32, "u64": 64, "u128": 128, "usize": 64}.get(ty)
+                if bits:
+                    return v % (1 << bits)
+                sbits = {"i8": 8, "i16": 16, "i32": 32, "i64": 64, "i128": 128, "isize": 64}.get(ty)
+                if sbits:
+                    v %= (1 << sbits)
+                    return v - (1 << sbits) if v >= (1 << (sbits - 1)) else v
+            return v
         if k == "discr":
             v = self.read(fr, r["p"])
             if isinstance(v, Obj) and v.vidx is not None:
@@ -489,7 +499,8 @@ class Engine:
                     return {"Add": a + b, "Sub": a - b, "Mul": a * b, "Eq": a == b, "Ne": a != b, "Lt": a < b, "Le": a <= b,
                             "Gt": a > b, "Ge": a >= b, "BitAnd": a & b, "BitOr": a | b, "BitXor": a ^ b,
                             "AddUnchecked": a + b, "SubUnchecked": a - b, "Shl": a << b, "Shr": a >> b,
-                            "Rem": a % b if b else TOP, "Div": a // b if b else TOP}.get(op, TOP)
+                            "Rem": (abs(a) % abs(b)) * (1 if a >= 0 else -1) if b else TOP,
+                            "Div": (abs(a) // abs(b)) * (1 if (a >= 0) == (b >= 0) else -1) if b else TOP}.get(op, TOP)
                 except Exception:
                     return TOP
             if op in ("BitAnd", "BitOr") and (isinstance(a, (bool, Cond)) and isinstance(b, (bool, Cond))):
@@ -920,6 +931,22 @@ def ring_models(extra=None):
             return ex.call_closure(st, args[2], [v.fields.get(0, TOP)])
         return TOP
     m.on(by(None, ("map_or", "unwrap_or"), "core::option::Option"), opt_map_or)
+
+    def try_branch(ex, st, fr, t, args):
+        v = args[0]
+        if isinstance(v, Obj) and v.variant == "Some":
+            return Obj(adt="core::ops::control_flow::ControlFlow", variant="Continue", vidx=0, fields={0: v.fields.get(0, TOP)})
+        if isinstance(v, Obj) and v.variant == "None":
+            return Obj(adt="core::ops::control_flow::ControlFlow", variant="Break", vidx=1, fields={0: none()})
+        return NotImplemented
+    m.on(by("core::ops::try_trait::Try", "branch"), try_branch)
+
+    def from_residual(ex, st, fr, t, args):
+        v = args[0]
+        if isinstance(v, Obj) and v.variant == "None":
+            return none()
+        return NotImplemented
+    m.on(by("core::ops::try_trait::FromResidual", "from_residual"), from_residual)
 
     def from_int(ex, st, fr, t, args):
         if len(args) == 1 and isinstance(args[0], int) and not isinstance(args[0], bool):
